@@ -192,6 +192,16 @@ func (h *HTTPSim) deliverFault(w http.ResponseWriter, f *Fault, ord int, raw, cl
 		w.WriteHeader(403)
 		io.WriteString(w, "forbidden")
 		return true
+	case "http-403-empty", "http-502-empty":
+		// Error status without any body, as a proxy or gateway in
+		// front of the device answers.
+		h.event(ord, raw, class, "fault:"+f.Kind, f.Kind)
+		code := 403
+		if f.Kind == "http-502-empty" {
+			code = 502
+		}
+		w.WriteHeader(code)
+		return true
 	case "close", "stall":
 		h.event(ord, raw, class, "fault:"+f.Kind, f.Kind)
 		h.mu.Lock()
